@@ -78,6 +78,7 @@ func (d *Dir) Write(files map[string][]byte) error {
 	if err := os.Remove(d.target + ".new"); err != nil && !errors.Is(err, os.ErrNotExist) {
 		return err
 	}
+	verifhook.Point("dir.write.step", 4)
 
 	if err := os.Symlink(newDir, d.target+".new"); err != nil {
 		return err
